@@ -113,6 +113,18 @@ Proof.
 Qed.
 Print Assumptions C28_widened_or_narrowed_gap_never_matches.
 
+(* the translated overflow guard is exact on non-negative Go ints *)
+Theorem C28_byteRangeEnd_exact :
+  forall a b, 0 <= a -> 0 <= b -> i64 a -> i64 b ->
+  (a + b <= maxS 64 -> byteRangeEnd IW a b = Ok (a + b)) /\
+  (forall e, byteRangeEnd IW a b = Ok e -> e = a + b /\ a + b <= maxS 64).
+Proof.
+  intros a b Ha Hb Ia Ib. split.
+  - now apply byteRangeEnd_complete.
+  - intros e. now apply byteRangeEnd_ok.
+Qed.
+Print Assumptions C28_byteRangeEnd_exact.
+
 (* non-vacuity: "AB<4a>CD" with /ByteRange [0 2 6 2], /Contents <4A> is reported unmodified in
    the current revision; one appended byte, an older increment, or a gap widened by one are not *)
 Example C28_nonvacuous :
